@@ -22,8 +22,18 @@ const judgeIfCount = true
 // violation.
 func combineGuard(r *mon.Run, prop string, c *call, all bool) (res []combinator.Path, ok bool) {
 	p, stack := mon.Try(func() {
+		if c.SharedUps != nil {
+			res = combinator.Combine(c.Src, c.Dst, c.SharedUps, c.SharedCores, c.SharedDown, all)
+			return
+		}
 		res = combinator.Combine(c.Src, c.Dst, c.Ups, c.Cores, c.Down, all)
 	})
+	if c.SharedUps != nil {
+		r.Event("combine_on_shared_slices")
+		if c.SharedSeq > 0 {
+			r.Event("combine_on_shared_slices_after_earlier_lookups")
+		}
+	}
 	if p != nil {
 		r.Violation(prop+":panic:"+mon.PanicSite(stack), fmt.Sprintf("Combine panicked: %v\n%s", p, stack), c.witness())
 		return nil, false
@@ -408,7 +418,7 @@ func checkC28(r *mon.Run) {
 	runWorkload(r, n, func(c *call) { judgeCallC28(r, c, st) })
 	r.Extra("segid", map[string]int64{"router_rule_match": st.segidMatch.Load(), "router_rule_mismatch": st.segidMismatch.Load()})
 	r.Extra("topologies", n)
-	r.Require(int64(r.Pick(20000, 300000)), 25, "path_all", "path_dedup", "dedup_choice", "ref_joins_crossing_an_AS_more_than_twice",
+	r.Require(int64(r.Pick(20000, 300000)), 25, "combine_on_shared_slices_after_earlier_lookups", "path_all", "path_dedup", "dedup_choice", "ref_joins_crossing_an_AS_more_than_twice",
 		"variant_clean", "variant_exp", "variant_mtu", "variant_dup", "variant_droppeer", "variant_allsegs", "variant_sparse", "empty_result")
 	r.RequireClasses(
 		"UD/shortcut/hops=3-4/multi", "UD/peer/hops=3-4/multi", "UD/core/hops=3-4/multi", "UCD/hops=5-7/multi",
